@@ -323,6 +323,10 @@ class MultiAggregateView(Table):
     
 def itermultiaggregate(source, key, aggregation):
     aggregation = OrderedDict(aggregation.items())  # take a copy
+
+    # special case where length of key is 1
+    if isinstance(key, (list, tuple)) and len(key) == 1:
+        key = key[0]
     it = iter(source)
     hdr = next(it)
     # push back header to ensure we iterate only once
@@ -593,6 +597,10 @@ def itermergeduplicates(table, key, missing):
     it = iter(table)
     hdr, it = iterpeek(it)
     flds = list(map(text_type, hdr))
+
+    # special case where length of key is 1
+    if isinstance(key, (list, tuple)) and len(key) == 1:
+        key = key[0]
 
     # determine output fields
     if isinstance(key, string_types):
